@@ -561,7 +561,7 @@ def classify(case):
     return nontrivial, sorted(labels)
 
 
-N = {"quick": 500, "thorough": 15000}
+N = {"quick": 1500, "thorough": 15000}
 
 
 def shard_plan(tier):
